@@ -16,7 +16,7 @@ def build(sc, pts, k):
     truth = {}
     for g, p in zip(sc["lay"], pts):
         dg = osyris.Datagroup()
-        n = len(p) if g["pos"] != -1 else 3
+        n = len(p) if g["pos"] >= 0 else (3 if g["pos"] == -1 else 6)
         if g["pos"] > 0:
             dg["position"] = osyris.Vector(*[np.array([float(q[d]) for q in p]) for d in range(3)], unit="cm")
         dg["mass"] = osyris.Array(np.arange(1, n + 1, dtype=float) * 10 + len(g["name"]), unit="g")
